@@ -50,7 +50,7 @@ def single_reactions(tier):
             for r in small[::2]:
                 for p in small[1::3]:
                     for dr in ([], ['A'], ['C', 'C']):
-                        for dp in ([], ['B'], ['A', 'B']):
+                        for dp in ([], ['B'], ['A', 'B'], ['B', 'B'], ['C', 'A', 'C']):   # repeats; C on both delayed sides cancels
                             if dl is None and (dr or dp):
                                 continue
                             rx = dict(reactants=r, products=p)
